@@ -4,6 +4,7 @@
 import Xc.Spec.DesTables
 import Xc.Gen.DesTables
 import Xc.Lemmas.Feistel
+import Xc.Lemmas.DesInv
 namespace Xc.C17
 open Xc Xc.Spec.DesT
 
@@ -45,5 +46,26 @@ theorem C17_rounds_invert (c : Des.Ctx) (n : Nat) (p : UInt32 × UInt32) :
     Des.iter (Des.pass c.saltbits (Des.keyList c true)) n (Des.iter (Des.pass c.saltbits (Des.keyList c false)) n p) = p ∧
     Des.pass c.saltbits (Des.keyList c false) (Des.pass c.saltbits (Des.keyList c true) p) = p :=
   ⟨Des.passes_inverse c n p, (Des.pass_inverse c p).2⟩
+
+/-- **decryption inverts encryption** (and encryption inverts decryption): for every key schedule, every salt, every iteration
+    count and every 8-byte block, `des_crypt_block` with `decrypt` set undoes `des_crypt_block` without it.  Ingredients:
+    the Feistel argument for the rounds (`C17_rounds_invert`), `FP ∘ IP = id` and `IP ∘ FP = id` on all 2^64 blocks (the tables
+    are OR-linear, a block is the OR of its bytes, and the second permutation puts the image of every single byte back:
+    `Lemmas/DesPerm.lean`), and the big-endian packing round trip. -/
+theorem C17_decrypt_inverts_encrypt (c : Des.Ctx) (x : Bytes) (hx : x.length = 8) (count : Nat) :
+    Des.cryptBlock c (Des.cryptBlock c x count false) count true = x ∧
+    Des.cryptBlock c (Des.cryptBlock c x count true) count false = x :=
+  Des.cryptBlock_inverse c x hx count
+
+/-- the initial and the final permutation are inverse bijections of the 64-bit blocks -/
+theorem C17_ip_fp (p : UInt32 × UInt32) :
+    Des.permLL Gen.des_fp_maskl Gen.des_fp_maskr (Des.permLL Gen.des_ip_maskl Gen.des_ip_maskr p) = p ∧
+    Des.permLL Gen.des_ip_maskl Gen.des_ip_maskr (Des.permLL Gen.des_fp_maskl Gen.des_fp_maskr p) = p :=
+  ⟨Des.fp_ip p, Des.ip_fp p⟩
+
+/-- **key parity bits are ignored**: two keys that agree on the upper seven bits of every byte give the same key schedule -/
+theorem C17_key_parity (key key' : Bytes) (h : ∀ i, i < 8 → (key.getD i 0) >>> 1 = (key'.getD i 0) >>> 1) :
+    Des.setKey key = Des.setKey key' :=
+  Des.setKey_parity key key' h
 
 end Xc.C17
